@@ -18,7 +18,7 @@ TECHNIQUE = 'runtime monitor on plan_query with unique marker constants per WHER
 RULE = ('queries = table(-table) JOIN model [JOIN table] with 0-4 WHERE conjuncts of kinds {model-eq, table-cmp, table-in, model-gt, not-model-eq, '
         'not-table, or-mix, func-wrapped, cross, nested-and} in random order, USING options, ON conditions; x catalog forms; non-trivial = >= 1 '
         'conjunct; distinct by (conjunct kinds, shape, catalog form)')
-RULE += '; also: constant-first comparisons, OR in ON, input columns named like fragments of the target, every join spelling (pushes under right / full joins judged)'
+RULE += '; model column = expression around a literal (casts, typed literals, parentheses, arithmetic), option names with several dots / back-quotes; also: constant-first comparisons, OR in ON, input columns named like fragments of the target, every join spelling (pushes under right / full joins judged)'
 ASSUMPTIONS = ['equalities on the model\'s target column (to_predict) are treated specially by the planner and are not generated',
                'an alias-prefixed USING option whose prefix is not the model alias belongs to another object and may be dropped']
 BUDGET = {'quick': (8, 240), 'thorough': (16, 1800)}
@@ -82,7 +82,7 @@ def build(r):
     q.conj = []
     k0 = 100 + r.randint(0, 50) * 10
     kinds = [r.choice(['model-eq', 'model-eq', 'table-cmp', 'table-cmp', 'table-cmp-rev', 'table-in', 'model-gt', 'not-model-eq', 'not-table', 'or-mix',
-                       'func-wrapped', 'cross', 'nested-and', 'model-eq-str'])
+                       'func-wrapped', 'cross', 'nested-and', 'model-eq-str', 'model-eq-expr'])
              for _ in range(r.randint(0, 4))]
     used_cols = set()
     for i, k in enumerate(kinds):
@@ -95,6 +95,16 @@ def build(r):
             lit = str(c) if k == 'model-eq' else f"'s{c}'"
             text = f'm.{col} = {lit}' if r.random() < 0.8 else f'{lit} = m.{col}'
             q.conj.append({'kind': 'model-eq', 'text': text, 'consts': [val], 'model_arg': (col, val)})
+        elif k == 'model-eq-expr':
+            # the value is written as an expression around a literal (cast, typed literal, parentheses, arithmetic): the planner may
+            # evaluate it into an argument or leave the condition as a filter - what it may not do is lose it
+            col = r.choice([x for x in ['e1', 'e2', 'e3'] if x not in used_cols] or ['e4'])
+            used_cols.add(col)
+            form = r.choice(['cast', 'colon-cast', 'paren', 'plus-zero', 'typed-literal', 'cast-str', 'rev-cast'])
+            val = f's{c}' if form in ('typed-literal', 'cast-str') else c
+            text = {'cast': f'm.{col} = CAST({c} AS int)', 'colon-cast': f'm.{col} = {c}::int', 'paren': f'm.{col} = ({c})', 'plus-zero': f'm.{col} = {c} + 0',
+                    'typed-literal': f"m.{col} = DATE 's{c}'", 'cast-str': f"m.{col} = CAST('s{c}' AS date)", 'rev-cast': f'CAST({c} AS float) = m.{col}'}[form]
+            q.conj.append({'kind': 'model-eq-expr:' + form, 'text': text, 'consts': [val], 'flex_arg': (col, val)})
         elif k == 'table-cmp':
             op = r.choice(['=', '>', '<', '>=', '!='])
             al = r.choice(list(q.tables))
@@ -130,9 +140,11 @@ def build(r):
     if r.random() < 0.4:
         # (names that begin with the characters of the alias prefix: cutting the prefix must cut exactly the prefix)
         opts = r.sample([('a', 7001), ('m.b', 7002), ('Mode', 7003), ('t.c', 7004), ('M.Key', 7005), ('deep', 7006), ('m.max_tokens', 7007),
-                         ('m.m', 7008), ('m.mm_2', 7009), ('max_m', 7010)], r.randint(1, 3))
+                         ('m.m', 7008), ('m.mm_2', 7009), ('max_m', 7010), ('m.prompt.template', 7011), ('m.a.b.c', 7012), ('x.y.z', 7013),
+                         ('`m`.bq', 7014), ('m.`d.e`', 7015)], r.randint(1, 3))
         s += ' USING ' + ', '.join(f'{k} = {v}' for k, v in opts)
         for k, v in opts:
+            k = k.replace('`', '')
             if '.' in k:
                 pre, rest = k.split('.', 1)
                 if pre.lower() == 'm':
@@ -219,7 +231,13 @@ def judge(q, plan):
         if got_args.get(col) != val:
             kind = next(c['kind'] for c in q.conj if c.get('model_arg', (None,))[0] == col)
             out.append(({'cond': 'model-equality-not-an-argument', 'conjunct': kind}, {'column': col, 'expected': val, 'row_dict': repr(ap.row_dict)}))
+    flex = {c['flex_arg'][0]: c for c in q.conj if 'flex_arg' in c}
+    for col, c in flex.items():
+        if col in got_args and got_args[col] != c['flex_arg'][1] and str(got_args[col]) != str(c['flex_arg'][1]):
+            out.append(({'cond': 'model-argument-wrong-value', 'conjunct': c['kind']}, {'column': col, 'expected': c['flex_arg'][1], 'row_dict': repr(ap.row_dict)}))
     for col, val in got_args.items():
+        if col in flex:
+            continue
         if col not in want_args:
             src_c = next((c['kind'] for c in q.conj if val in c['consts']), 'unknown')
             out.append(({'cond': 'non-argument-became-argument', 'conjunct': src_c}, {'column': col, 'value': val, 'row_dict': repr(ap.row_dict)}))
@@ -277,7 +295,13 @@ def judge(q, plan):
     for s in outer:
         outer_consts |= consts_in(s.query.where)
     for c in q.conj:
-        if 'model_arg' in c:
+        if 'flex_arg' in c:
+            col, val = c['flex_arg']
+            if col in got_args and val in outer_consts:
+                out.append(({'cond': 'consumed-argument-still-filters', 'conjunct': c['kind']}, {'outer': [s.query.where.to_string()[:200] for s in outer]}))
+            elif col not in got_args and val not in outer_consts:
+                out.append(({'cond': 'unconsumed-condition-lost', 'conjunct': c['kind']}, {'outer': [s.query.where.to_string()[:200] for s in outer], 'row_dict': repr(ap.row_dict)}))
+        elif 'model_arg' in c:
             if c['model_arg'][1] in outer_consts:
                 out.append(({'cond': 'consumed-argument-still-filters', 'conjunct': c['kind']}, {'outer': [s.query.where.to_string()[:200] for s in outer]}))
             if c['kind'] == 'nested-and' and c['consts'][1] not in outer_consts:
